@@ -270,10 +270,24 @@ func runC18(seed int64, tier string, sc *Script) map[string]any {
 			preLive = keep
 		}
 		// pre-existing document
-		if rng.Intn(4) != 0 {
+		// every third history: one host under two key forms (bare and https://host/v1/), the
+		// bare one deleted first and then read (the other form must still answer, and stay)
+		twoForms := ci%3 == 1
+		h0 := hosts[ci%len(hosts)]
+		if rng.Intn(4) != 0 || twoForms {
 			top := map[string]json.RawMessage{}
 			auths := map[string]json.RawMessage{}
 			used := map[string]bool{}
+			if twoForms {
+				used[h0] = true
+				for fi, addr := range []string{h0, "https://" + h0 + "/v1/"} {
+					e := preEntry{addr: addr, unk: 1 + fi, hasAuth: true, auth: fmt.Sprintf("user%d:pass%d", fi, fi)}
+					auths[addr] = e.raw()
+					preLive = append(preLive, e)
+					sc.Def("cd entry addr=%s auth=%s idt=%s rgt=%s lu=%s lp=%s unk=%d", hx(addr), hx(e.auth), hx(e.idt), hx(e.rgt), hx(e.lu), hx(e.lp), e.unk)
+				}
+				sc.Count("pre:one-host-two-key-forms")
+			}
 			for k := 0; k < rng.Intn(4); k++ {
 				h := hosts[rng.Intn(len(hosts))]
 				if used[h] {
@@ -350,7 +364,14 @@ func runC18(seed int64, tier string, sc *Script) map[string]any {
 		for step := 0; step < 12; step++ {
 			addr := hosts[rng.Intn(len(hosts))]
 			evals++
-			switch r := rng.Intn(10); {
+			r := rng.Intn(10)
+			if twoForms && step == 0 {
+				addr, r = h0, 9
+			}
+			if twoForms && step == 1 {
+				addr, r = h0, 5
+			}
+			switch {
 			case r < 5:
 				c := auth.Credential{Username: parts[rng.Intn(len(parts))], Password: parts[rng.Intn(len(parts))]}
 				if strings.ContainsAny(base64.StdEncoding.EncodeToString([]byte(c.Username+":"+c.Password)), "+/") {
